@@ -84,6 +84,7 @@ type interpreter struct {
 	mode    Mode                   // interpreter options
 	path    *pathCtx
 	envst   *envState // recording environment stubs (os.*, stubs)
+	ws      *workerState
 }
 
 // Shared is the per-program state shared by all workers (immutable after NewShared).
@@ -505,6 +506,14 @@ func callSSA(i *interpreter, caller *frame, callpos token.Pos, fn *ssa.Function,
 	}
 	if fn.Blocks == nil {
 		i.path.abort("no code for function: %s", fn.String())
+	}
+	return callBody(i, caller, fr, fn, args, env)
+}
+
+// callBody interprets fn's SSA body (no intrinsic lookup).
+func callBody(i *interpreter, caller *frame, fr *frame, fn *ssa.Function, args []value, env []value) value {
+	if fr == nil {
+		fr = &frame{i: i, caller: caller, fn: fn}
 	}
 	if i.Trace {
 		fmt.Fprintf(os.Stderr, "%*scall %s\n", i.path.depth, "", fn)
